@@ -175,6 +175,15 @@ def run(x, y):
         out.append("empty")
     return (head, last, name, int(minor), rest, len(fields), out)
 ''', [(0, 0), (1, 2), (2, 1), (3, 3)]),
+    "enumerate_optional": ('''
+def run(x, y):
+    groups = [("a", x), ("b", y), ("c", x + y), ("d", 1)]
+    kept = [g for g in groups if g[1] > 0]
+    out = []
+    for i, (name, v) in enumerate(kept):
+        out.append((i, name, v))
+    return (out, [i for i, g in enumerate(kept, 5)])
+''', [(0, 0), (1, 0), (0, 2), (1, 1)]),
     "sequences": ('''
 def run(x, y):
     l = [x, y, x + y, 7]
